@@ -71,6 +71,8 @@ def groups(tier, seed):
     yield {'tree': 'lim', 'cases': [{'where': False, 'order': o, 'roots': r, 'mode': None, 'arc': False, 'rd': None, 'sel': sel}
                                     for sel in ("concat('f:', name)", "concat_ws('-', 'f', path)", "replace('x-y', 'y', name)")
                                     for o in (0, 1) for r in ('dot', 'two')]}
+    # family 6b: ... and nothing else is selected (the query must still be recognised as reading file columns)
+    yield {'tree': 'lim', 'selonly': True, 'cases': [{'sel': i, 'N': n, 'roots': r} for i in range(3) for n in (None, 0, 1, 2, 5, 50) for r in ('dot', 'two')]}
     # family 7: aggregates see every row whatever LIMIT says (one row is <= any N >= 1), also over several roots
     yield {'tree': 'lim', 'agg': True, 'cases': [{'roots': r, 'N': n, 'arc': a} for r in ('dot', 'two') for n in (None, 1, 2, 5) for a in (False, True)]}
     # family 4: grouped rows are rows too
@@ -82,6 +84,8 @@ def groups(tier, seed):
 
 
 def single(case):
+    if case.get('fam') == 'selonly':
+        return {'tree': 'lim', 'selonly': True, 'cases': [{k: case[k] for k in ('sel', 'N', 'roots')}]}
     if case.get('fam') == 'agg':
         return {'tree': 'lim', 'agg': True, 'cases': [{k: case[k] for k in ('roots', 'N', 'arc')}]}
     if case.get('fam') == 'big':
@@ -119,6 +123,8 @@ def eval_group(env, group, tier):
             return eval_grouped(env, root, group)
         if group.get('agg'):
             return eval_agg(env, root, group)
+        if group.get('selonly'):
+            return eval_selonly(env, root, group)
         if group.get('big'):
             return eval_big(env, root, group)
         for c in group['cases']:
@@ -288,5 +294,33 @@ def eval_big(env, root, group):
             r.update(status='viol', cls='not-the-top-n-big', detail={'query': q, 'got': [str(om.keyvec(byp[p], keys)) for p in rows][:6], 'expected': [str(x) for x in full[:6]]}, sig=('bigtop',))
         else:
             r.update(status='ok', sig=(c['order'], N))
+        res.append(r)
+    return res
+
+
+SELONLY = [("concat('f:', name)", lambda e: 'f:' + e['name']), ("concat_ws('-', 'f', path)", lambda e: 'f-' + e['path']),
+           ("replace('x-y', 'y', name)", lambda e: 'x-' + e['name'])]
+
+
+def eval_selonly(env, root, group):
+    res = []
+    for c in group['cases']:
+        rootlist = ['.'] if c['roots'] == 'dot' else ['sub', 'oth']
+        ents = []
+        for r in rootlist:
+            ents += om.entries(root if r == '.' else os.path.join(root, r), prefix=r)
+        sel, f = SELONLY[c['sel']]
+        N = c['N']
+        q = sel + ' from ' + ', '.join(rootlist) + ('' if N is None else ' limit %d' % N) + ' into list'
+        o = env.run([q], cwd=root)
+        rows = o.rows()
+        M = len(ents)
+        want = M if N in (None, 0) else min(N, M)
+        allv = sorted(f(e) for e in ents)
+        r = {'case': dict(c, fam='selonly', query=q), 'nt': True, 'layer': 'select-only-function-args'}
+        if o.rc != 0 or o.err or len(rows) != want or any(rows.count(v) > allv.count(v) for v in rows):
+            r.update(status='viol', cls='row-count-function-arg-select', detail={'query': q, 'got': len(rows), 'expected': want, 'rows': rows[:4]}, sig=('selonly',))
+        else:
+            r.update(status='ok', sig=(c['sel'], N, len(rows)))
         res.append(r)
     return res
